@@ -85,6 +85,21 @@ def run_convert(case, ctx):
             ctx.cls("comment-right-after-a-split-opens")
         elif k == "comment" and toks[i - 1][0] == "|":
             ctx.cls("comment-right-after-a-bar")
+    if case.get("rejected_before") is not None:
+        conv = NeurolucidaAscToSwc()
+        for _ in range(2):
+            try:
+                NeurolucidaAscToSwc.from_stream(io.StringIO(case["rejected_before"]))
+            except Exception:  # noqa - rejections are judged by the truncate / corrupt sub-checks
+                pass
+            bad_path = os.path.join(ctx.tmpdir, "bad.asc")
+            with open(bad_path, "w", encoding="utf-8") as f:
+                f.write(case["rejected_before"])
+            try:
+                conv(bad_path)
+            except Exception:  # noqa
+                pass
+        ctx.cls("converted-after-a-rejected-document")
     if case["via"] == "stream":
         tree = ctx.lib("from_stream", NeurolucidaAscToSwc.from_stream, io.StringIO(text))
     else:
@@ -124,7 +139,11 @@ def run_convert(case, ctx):
 
 @st.composite
 def convert_strategy(draw, tier):
-    return {"doc": draw(gen_asc.document(tier)), "via": draw(st.sampled_from(["stream", "stream", "convert", "call"]))}
+    return {"doc": draw(gen_asc.document(tier)), "via": draw(st.sampled_from(["stream", "stream", "convert", "call"])),
+            # the converter has just rejected another document (a truncated one, a malformed point): the caller caught the
+            # error and goes on with this one
+            "rejected_before": draw(st.sampled_from([None, None, None, "( (Axon) (1 2 3 4) ( (5 6 7 8) | (9 1 1",
+                                                     "( (Dendrite) (1 2 3 4) (5 six 7 8) )", "( (Color Red) (Axon) (1 2 3", ""]))}
 
 
 # ----------------------------------------------------------------------------- truncations
@@ -262,7 +281,7 @@ SUBCHECKS = [
     Sub("convert", convert_strategy, run_convert, quick=1000, thorough=12000, shards_quick=8,
         required={"material-after-inner-split": 60, "empty-non-final-alternative": 60, "empty-first-alternative": 40,
                   "branch>=1000-points": 10, "nesting>=8": 10, "nesting>=1000": 5, "via:convert": 60, "via:call": 60,
-                  "has-colours-or-comments": 100, "comment-right-after-a-split-opens": 15, "comment-right-after-a-bar": 10, "annotated-document>16KB": 15, "heavily-annotated-document>70KB": 15,
+                  "has-colours-or-comments": 100, "comment-right-after-a-split-opens": 15, "comment-right-after-a-bar": 10, "annotated-document>16KB": 15, "heavily-annotated-document>70KB": 15, "converted-after-a-rejected-document": 200,
                   "same-file-converted-three-times": 100, "label:AXON": 100, "label:DENDRITE": 100}),
     Sub("truncate", truncate_strategy, run_truncate, quick=400, thorough=5000, shards_quick=8,
         required={"cut:last-bracket-only": 200, "cut:inside": 500, "cut:char": 200}),
